@@ -207,6 +207,12 @@ fn vocabulary(code: &str) -> Vec<String> {
     out
 }
 
+fn repo_dir() -> String {
+    let a: Vec<String> = std::env::args().collect();
+    if a.get(1).map(|m| m == "--replay").unwrap_or(false) { return std::env::var("VERIF_REPO").unwrap_or_else(|_| "/repo".to_string()); }
+    a.get(2).cloned().filter(|p| std::path::Path::new(p).is_dir()).unwrap_or_else(|| std::env::var("VERIF_REPO").unwrap_or_else(|_| "/repo".to_string()))
+}
+
 struct Case {
     descr: serde_json::Value,
     run: Box<dyn Fn() -> Option<String>>,
@@ -383,6 +389,18 @@ fn cases(mode: &str) -> Vec<Case> {
                             let batch = find_numbers(ts.clone().into_iter(), &l, th);
                             match m.as_str() {
                                 "wf" => {
+                                    // the lazy iterator delivers well-formed spans too (same order, nothing twice)
+                                    let mut lazy_prev = 0usize;
+                                    let mut it = find_numbers_iter(ts.clone().into_iter(), &l, th);
+                                    let mut n = 0usize;
+                                    while let Some(o) = it.next() {
+                                        if !(o.start < o.end && o.end <= ts.len() && (n == 0 || o.start >= lazy_prev)) {
+                                            return Some(format!("find_numbers_iter: span {:?} is not inside the stream and after the previous one (which ended at {})", (o.start, o.end, &o.text), lazy_prev));
+                                        }
+                                        lazy_prev = o.end;
+                                        n += 1;
+                                        if n > ts.len() + 1 { return Some("find_numbers_iter yields more occurrences than tokens".to_string()); }
+                                    }
                                     let mut prev_end = 0usize;
                                     for (k, o) in batch.iter().enumerate() {
                                         if !(o.start < o.end && o.end <= ts.len() && (k == 0 || o.start >= prev_end)) {
@@ -502,6 +520,47 @@ fn cases(mode: &str) -> Vec<Case> {
                                     }
                                 }
                                 if at.len() > all.len() { return Some(format!("tokens {:?}: more numbers at threshold 10 than at threshold 0", sq)); }
+                                None
+                            }),
+                        });
+                    }
+                }
+                // every single-word entry of each language's INSIGNIFICANT set (read from the repository's vocabulary files as they are now)
+                // between two small numbers: both are reported at threshold 10 (a linking word does not isolate); an ordinary word does
+                let smalls: [(&str, &str, &str, &str); 7] = [("en", "two", "five", "dog"), ("fr", "deux", "cinq", "chien"), ("es", "dos", "cinco", "perro"), ("pt", "dois", "cinco", "cão"),
+                    ("it", "due", "cinque", "cane"), ("de", "zwei", "fünf", "hund"), ("nl", "twee", "vijf", "hond")];
+                for (code, a, b, plain) in smalls {
+                    let mut words: Vec<String> = Vec::new();
+                    if let Ok(text) = std::fs::read_to_string(format!("{}/src/lang/{}/vocabulary.rs", repo_dir(), code)) {
+                        if let Some(pos) = text.find("INSIGNIFICANT") {
+                            let body = &text[pos..];
+                            let end = body.find("};").unwrap_or(body.len());
+                            let mut rest = &body[..end];
+                            while let Some(q) = rest.find('"') {
+                                let tail = &rest[q + 1..];
+                                if let Some(e) = tail.find('"') {
+                                    let w = &tail[..e];
+                                    if !w.is_empty() && !w.contains(' ') { words.push(w.to_string()); }
+                                    rest = &tail[e + 1..];
+                                } else { break; }
+                            }
+                        }
+                    }
+                    words.push(plain.to_string());
+                    for w in words {
+                        let (c, a, b, is_plain) = (code.to_string(), a.to_string(), b.to_string(), w == plain);
+                        out.push(Case {
+                            descr: serde_json::json!({"mode":"thr","lang":code,"link":w}),
+                            run: guard(move || {
+                                let l = lang(&c);
+                                // a word that is itself (part of) a number in this language says nothing about linking
+                                if text2digits(&w, &l).is_ok() || text2digits(&format!("{} {} {}", a, w, b), &l).is_ok() { return None; }
+                                let ts = vec![Tok::w(&a), Tok::w(","), Tok::w(&w), Tok::w(","), Tok::w(&b)];
+                                let all = find_numbers(ts.clone().into_iter(), &l, 0.0);
+                                if all.len() != 2 || all[0].end != 1 || all[1].start != 4 { return None; }
+                                let at = find_numbers(ts.into_iter(), &l, 10.0);
+                                if is_plain && !at.is_empty() { return Some(format!("{:?}, {:?}, {:?}: an ordinary word isolates the two small numbers, but {:?} are reported at threshold 10", a, w, b, occs(&at))); }
+                                if !is_plain && at.len() != 2 { return Some(format!("{:?}, {:?}, {:?}: {:?} is a linking word of this language, the two small numbers are not isolated, but {:?} are reported at threshold 10", a, w, b, w, occs(&at))); }
                                 None
                             }),
                         });
